@@ -1,5 +1,5 @@
 CONSTANTS
-  Defects = {"running_after_terminal"}
+  Defects = {"abort_at_every_site", "running_after_terminal"}
   K = 1
   PropSet = {"all"}
   ObeySet = {"all"}
@@ -9,4 +9,4 @@ CONSTANTS
   MaxTicks = 1
 INIT LInit
 NEXT LNext
-INVARIANT C18_Wellformed
+INVARIANT C18_NoRunningAfterTerminal
